@@ -70,12 +70,14 @@ CLAIMED = {
          "oracle; D4 witnesses in the corpus.", "§5 C10", "spline build on validated n-d input: no-panic by C02_build per lane + runs",
          "Lean 4 proof (case analysis of the chain over C12) + exhaustive decision-table correspondence"),
  "C11": ("Theorems for every axis/length/guess/query (C11_bracket for ANY in-range initial guess, C11_guess, C11_exact, C11_unique) over "
-         "any linear order resp. ordered field; exact-rational correspondence of get_lower_index, f64 index comparison, linear-scan "
-         "oracle, exhaustive (length, guess, rank) family.", "§5 C11",
+         "any linear order resp. ordered field; C11_of_guess (any element arithmetic, as soon as the guess is an index) and C11_exact_I (i64 axes: "
+         "the truncating integer guess is q-x0 on unit spacing and 0 otherwise). Exact-rational, f64 and i64 correspondence of get_lower_index "
+         "(i64 axes incl. magnitudes above 2^53 and small-step axes), linear-scan oracle, exhaustive (length, guess, rank) family.", "§5 C11",
          "GuessOK for floats exercised, not proved; non-NaN float order trusted",
          "Lean 4 proof (bisection invariant by fun_induction, field arithmetic) + exact-rational correspondence"),
  "C12": ("Theorems for every list: C12_classify/C12_iff (any linear order), C12_nan (no assumption on the comparisons), "
-         "C12_shortcircuit; exhaustive relation words and NaN placements through crate and model.", "§5 C12",
+         "C12_shortcircuit, C12_iff_I (instantiated at the i64 model); exhaustive relation words at Q, f64 (incl. saturating extremes and equal "
+         "infinities) and i64 (small and above 2^53), every NaN placement, through crate and model.", "§5 C12",
          "IEEE non-NaN order trusted", "Lean 4 proof (automaton invariant by induction) + exhaustive word correspondence"),
  "C13": ("Kernel-checked: C13_buffer (view model: any two buffers of equal shape with injective addressing receive the same logical contents "
          "— no stride condition; false of the unrepaired reshape path) and C13_facts (regenerated source facts: no layout-sensitive "
